@@ -186,3 +186,56 @@ pub fn drive_c13(args: &[String]) {
     sink.flush();
     println!("{}", json!({"events": sink.n}));
 }
+
+// ------------------------------------------------------------------ hooked runs (cfg rust_dsymbols_verif)
+
+#[cfg(rust_dsymbols_verif)]
+pub fn drive_hooked(args: &[String]) {
+    let out = arg(args, "--out").unwrap();
+    let nsyms = arg_usize(args, "--syms", 12);
+    let k = arg_usize(args, "--k", 5);
+    let cap = arg_usize(args, "--cap", 600);
+    let mut sink = Sink::create(&out);
+    let mut rng = rng(121);
+    let mut pres: Vec<(String, usize, Vec<Vec<isize>>)> = vec![];
+    for gr in infinite_corpus().into_iter().chain(finite_corpus()) { if gr.ng >= 1 { pres.push((gr.name.clone(), gr.ng, gr.rels.clone())); } }
+    let mut pool: Vec<PartialDSym> = generated_2d(6).into_iter().filter(|s| s.size() >= 2).collect();
+    pool.extend(sets_with_branching(2, 4, &[2, 3, 4, 6], 3, &mut rng));
+    pool.extend(sets_with_branching(3, 2, &[1, 2, 3], 3, &mut rng));
+    pool.shuffle(&mut rng);
+    let mut n = 0;
+    for s in pool {
+        if n >= nsyms { break; }
+        if let Ok(fg) = catch(|| fundamental_group(&s)) {
+            let ng = fg.nr_generators();
+            if ng >= 2 && ng <= 5 && fg.relators.iter().all(|w| w.len() <= 40) { n += 1; pres.push((format!("orbifold group of {}", s), ng, fg.relators.iter().map(letters).collect())); }
+        }
+    }
+    let mut run = 0;
+    for (name, ng, rels) in pres {
+        run += 1;
+        let tag = format!("p{run}");
+        sink.emit(json!({"ev": "header", "run": tag, "name": name, "ng": ng, "rels": rels, "k": k}));
+        let _ = rust_dsymbols::verif::take();
+        let r = catch(|| coset_tables(ng, &words(&rels), k).count());
+        let evs = rust_dsymbols::verif::take();
+        // large trees: a seeded sample of the calls (every call is judged on its own)
+        let total = evs.len();
+        for e in evs {
+            if total > cap && !rng.gen_bool(cap as f64 / total as f64) { continue; }
+            let mut v: Value = serde_json::from_str(&e).expect("hook event");
+            v["some"] = json!(!v["out"].is_null());
+            if v["out"].is_null() { v["out"] = json!([]); }
+            v["run"] = json!(tag);
+            sink.emit(v);
+        }
+        if let Err(m) = r { sink.emit(json!({"ev": "derive", "run": tag, "panic": m})); }
+    }
+    sink.flush();
+    println!("{}", json!({"events": sink.n, "runs": run}));
+}
+
+#[cfg(not(rust_dsymbols_verif))]
+pub fn drive_hooked(_args: &[String]) {
+    println!("{}", json!({"events": 0, "runs": 0, "hooks": "not compiled in"}));
+}
